@@ -18,10 +18,12 @@ abbrev memE (σE : State w) : Mem w := memOf σE σE.ptr
 /-- The memory of the source program in the same coordinates (origin = pointer of the emitted program). -/
 abbrev memS (σE σS : State w) : Mem w := memOf σS σE.ptr
 
+/-- `nr`: a state marked `noReturn` is related to nothing ("control never reaches this point"). -/
 structure Rel (s : Rebuild w) (ps : List (Rebuild w)) (M0 : Mem w) (σE σS : State w) : Prop where
   tr : σS.trace = σE.trace
   env : σS.env = σE.env
   ptr : σS.ptr = σE.ptr + s.shift
+  nr : s.noReturn = false
   inv : MInv s ps M0 (memE σE) (memS σE σS)
 
 theorem memOf_apply (σ : State w) (o v : Int) : memOf σ o v = σ.tape.get (o + v) := rfl
